@@ -218,7 +218,7 @@ def run_harness(exe, lines, jobs=4):
     return allres
 
 
-def generate(chk, infos, quick):
+def generate(chk, infos, quick, c20=False):
     rng = chk.rng('cases')
     lines = []
     n = 0
@@ -231,12 +231,12 @@ def generate(chk, infos, quick):
         for _ in range(nb):
             vals = [rng.choice(g) for g in grids]
             n += 1
-            lines.append(G.gen_case(info, rng, 'g%d' % n, vals=vals, shapes=['r'] * len(vals), dst='r'))
+            lines.append(G.gen_case(info, rng, c20=c20, cid= 'g%d' % n, vals=vals, shapes=['r'] * len(vals), dst='r'))
         for _ in range(per_op - nb):
             n += 1
             vals = [rng.choice(g) if rng.random() < 0.6 else G.rand_val(k, rng, info.name, i)
                     for i, (k, g) in enumerate(zip(info.args, grids))]
-            lines.append(G.gen_case(info, rng, 'g%d' % n, vals=vals))
+            lines.append(G.gen_case(info, rng, c20=c20, cid= 'g%d' % n, vals=vals))
     byname = {i.name: i for i in infos}
     # aimed cases: power-of-two immediates with 32-bit opcodes (transform_mul_div), x*1 / x+0 shortcuts
     for info in tests:
@@ -245,12 +245,12 @@ def generate(chk, infos, quick):
             for k in ks:
                 for xv in ([7, 0x80000000, 0xffffffff80000000] if quick else [7, 1, 0x80000000, 0xffffffff80000000, G.M64, 0x7fffffff, 1 << 63, 12345678901]):
                     n += 1
-                    lines.append(G.gen_case(info, rng, 'p%d' % n, vals=[xv, 1 << k], shapes=['r', 'i'], dst='r'))
+                    lines.append(G.gen_case(info, rng, c20=c20, cid= 'p%d' % n, vals=[xv, 1 << k], shapes=['r', 'i'], dst='r'))
             for yv in (0, 1, G.M64):
                 for xv in (5, 1 << 31, 1 << 63, 0x4000000000000000, 0x40000000):
                     for sh in (['r', 'i'], ['i', 'r'], ['i', 'i']):
                         n += 1
-                        lines.append(G.gen_case(info, rng, 'q%d' % n, vals=[xv, yv], shapes=sh, dst='r'))
+                        lines.append(G.gen_case(info, rng, c20=c20, cid= 'q%d' % n, vals=[xv, yv], shapes=sh, dst='r'))
     # overflow insns: exact results at and next to the signed / unsigned limits, every defined branch,
     # register and immediate second operand (the flags left by an earlier insn are set to the opposite)
     for info in tests:
@@ -267,7 +267,7 @@ def generate(chk, infos, quick):
                 b |= rng.choice([0, 0xffffffff, rng.getrandbits(32)]) << 32
             for br in (brs if not quick else [rng.choice(brs)]):
                 n += 1
-                lines.append(G.gen_case(info, rng, 'o%d' % n, vals=[a, b], shapes=rng.choice([['r', 'r'], ['r', 'i'], ['i', 'r'], ['i', 'i'], ['r', 'm']]), dst='r', br=br))
+                lines.append(G.gen_case(info, rng, c20=c20, cid= 'o%d' % n, vals=[a, b], shapes=rng.choice([['r', 'r'], ['r', 'i'], ['i', 'r'], ['i', 'i'], ['r', 'm']]), dst='r', br=br))
     # two-instruction sequences: ext of ext (same and different widths), a unary insn feeding / consuming
     # the insn under test, compare + BT/BF
     vals8 = [0x80, 0x7f, 0xff, 0x8000, 0x7fff, 0xffff, 0x80000000, 0x7fffffff, 0xffffffff, 0x123456789abcdef0,
@@ -276,9 +276,9 @@ def generate(chk, infos, quick):
         for b in G.EXTS:
             for v in (vals8 if not quick else rng.sample(vals8, 5)):
                 n += 1
-                lines.append(G.gen_case(byname[b], rng, 's%d' % n, vals=[v], shapes=['r'], dst='r', pre=a))
+                lines.append(G.gen_case(byname[b], rng, 's%d' % n, vals=[v], shapes=['r'], dst='r', pre=a, c20=c20))
                 n += 1
-                lines.append(G.gen_case(byname[a], rng, 's%d' % n, vals=[v], shapes=[rng.choice('rm')], dst='r', post=b))
+                lines.append(G.gen_case(byname[a], rng, 's%d' % n, vals=[v], shapes=[rng.choice('rm')], dst='r', post=b, c20=c20))
     nseq = 6 if quick else 40
     for info in tests:
         if info.res != 'i' or info.name in G.OVF or 'l' in info.args:
@@ -297,7 +297,7 @@ def generate(chk, infos, quick):
             vals = [G.rand_val(k, rng, info.name, i) if rng.random() < 0.5 else rng.choice(G.grid_for(k, rng, info.name, i))
                     for i, k in enumerate(info.args)]
             n += 1
-            lines.append(G.gen_case(info, rng, 't%d' % n, vals=vals, shapes=shapes, dst='r', pre=pre, post=post))
+            lines.append(G.gen_case(info, rng, c20=c20, cid= 't%d' % n, vals=vals, shapes=shapes, dst='r', pre=pre, post=post))
     return lines
 
 
